@@ -705,8 +705,18 @@ class Segmentation(Unit):
                     rp = replay_truncated(n, avail, chunk)
                     if rp['confirmed']:
                         fails.append(dict(call=rp['call'], observed=rp['observed'], witness='truncated-frame'))
+        # larger bodies too: past CPython's small-int cache (257+), where `is` and `==` on a byte count part company, and
+        # past one VarInt length byte (seeded change C15-r14)
+        for n in (300, 700, 20000):
+            for avail in (0, 1, 255, 256, 257, 258, n // 2, n - 2, n - 1, n):
+                for chunk in (1, 100, None):
+                    cnt += 1
+                    rp = replay_truncated(n, avail, chunk)
+                    if rp['confirmed']:
+                        fails.append(dict(call=rp['call'], observed=rp['observed'], witness='truncated-frame'))
         return dict(name='C01.segmentation.truncations', evaluations=cnt, failures=fails[:2],
-                    bound='frame body sizes {1,2,5,40} x every truncation point x chunkings {1,3,whole}')
+                    bound='frame body sizes {1,2,5,40} x every truncation point, {300,700,20000} x truncation points around 256 and '
+                          'the end, x chunkings {1,3 or 100,whole}')
 
 
 def _is_zero(x):
@@ -715,10 +725,10 @@ def _is_zero(x):
 
 def replay_truncated(n, avail, chunk=1):
     """A frame announcing n body bytes of which only `avail` arrive before end of stream."""
-    body = wire.varint_enc(3) + bytes(range(1, n))[:n - 1] if n >= 1 else b''
+    body = wire.varint_enc(3) + bytes(k % 251 for k in range(1, n))[:n - 1] if n >= 1 else b''
     body = (body + bytes(n))[:n]
     data = wire.varint_enc(n) + body[:avail]
-    f = ChunkedFile(data, chunk, budget=5000)
+    f = ChunkedFile(data, chunk, budget=5000 + 2 * n)
     orig = select.select
     select.select = lambda r, w, x, t=None: (r, [], [])
     try:
